@@ -909,7 +909,8 @@ class E2Meta(ScriptEngine):
                 # be decided over the whole expression
                 v = lit(r.choice([2, 7, 25, 60]), force=r.random() < 0.7)
                 c = r.choice([1, 3, 40, 100])
-                form = r.choice(["max({c}, {v})", "min({c}, {v})", "max({v}, {c})", "abs({v} - {c})", "int({v} * 1.5)", "({v} if {v} > {c} else {c})", "max({c}, {c}, {v})", "min(max({c}, {v}), 200)"])
+                form = r.choice(["max({c}, {v})", "min({c}, {v})", "max({v}, {c})", "abs({v} - {c})", "int({v} * 1.5)", "({v} if {v} > {c} else {c})", "max({c}, {c}, {v})", "min(max({c}, {v}), 200)",
+                                 "({c} if {v} > 10 else 150)", "(5 if {v} < {c} else 90)", "(20 if not {v} == 7 else {c})"])
                 site = r.choice(["sleep({})", "led.set_brightness({})", "sv.write({})", "mon.write({})"])
                 target_list.append((site.format(form.format(c=c, v=v[0])), site.format(form.format(c=c, v=v[1]))))
                 return
